@@ -312,7 +312,7 @@ func (rs *rufState) emitLemmas(p *Printer) {
 			rs.lemma(p, "L4", relErr(in.r, in.e, false))
 		case "rnd":
 			// rounding an arbitrary real to double: relative error plus the subnormal absolute term
-			rs.lemma(p, "L4", relErr(in.r, in.e, true))
+			rs.lemma(p, "L4", relErr(in.r, in.e, !p.tf.NoUnderflow))
 		case "scale":
 			// L7: exact scaling by a power of two unless the result is subnormal
 			rs.lemma(p, "L7", fmt.Sprintf("(let ((e! %s)) (or (= %s e!) (and (< %s %s) (<= %s %s))))", in.e, in.r, absStr("e!"), rufMinNormal, absStr(fmt.Sprintf("(- %s e!)", in.r)), rufEta))
